@@ -87,7 +87,7 @@ def cases(draw, tier="quick", mode=None):
 
 def valid(case):
     try:
-        if case["mode"] not in ("single", "single_class", "controlled", "stress") or not case["pipelines"]:
+        if case["mode"] not in ("single", "single_class", "controlled", "stress", "first_use") or not case["pipelines"]:
             return False
         if not all(isinstance(x, int) and 0 <= x < 64 for x in case["schedule"]):
             return False
@@ -280,7 +280,51 @@ def _check(case):
     return r
 
 
+def check_first_use(case):
+    """the same comparison, but the threads run in a fresh interpreter that has not generated or rendered anything before:
+    whatever the library initialises lazily is initialised by several threads at once"""
+    import json
+    import subprocess
+    from ..env import child_env, VERIF
+    r = R()
+    specs = case["pipelines"]
+    r.label("mode:first-use", "threads:%d" % len(specs))
+    solos = [solo(s) for s in specs]
+    r.nontrivial = len(specs) >= 2
+    try:
+        p = subprocess.run([sys.executable, "-m", "j2mverif.firstuse"], input=json.dumps({"pipelines": specs}), capture_output=True,
+                           text=True, encoding="utf-8", env=child_env("0"), cwd=VERIF, timeout=120)
+        results = json.loads(p.stdout)
+    except Exception as e:  # noqa: BLE001
+        r.skip = "first-use-child-failed:" + type(e).__name__
+        return r
+    for i, (got, (exp, _, _)) in enumerate(zip(results, solos)):
+        if got is None:
+            r.fail("thread-did-not-finish", f"pipeline {i}")
+        elif got[0] == "exc" and exp[0] == "exc":
+            if got[1] != exp[1]:
+                r.fail("exception-type-differs-in-thread", f"pipeline {i}: thread {got[1:]}, alone {exp[1:]}")
+        elif got[0] == "exc":
+            r.fail("exception-only-in-thread:" + got[1], f"pipeline {i} (first use, {len(specs)} threads): {got[2]}")
+        elif exp[0] == "exc":
+            r.fail("exception-only-alone", f"pipeline {i}: alone {exp[1:]}")
+        elif got[1] != exp[1]:
+            r.fail("output-differs-from-solo-run", f"pipeline {i} of {len(specs)} (first use in a fresh interpreter):\n{got[1]}\n--- alone:\n{exp[1]}")
+    return r
+
+
+@st.composite
+def first_use_cases(draw, tier="quick"):
+    n = draw(st.integers(2, 6))
+    pipes = [draw(pipeline_specs(i)) for i in range(n)]
+    for p in pipes:
+        p["kind"] = "library"
+        p["opts"]["default_registry"] = draw(st.booleans())
+    return {"mode": "first_use", "pipelines": pipes, "schedule": []}
+
+
 def phases(tier):
     q = tier == "quick"
-    return [dict(name="controlled", kind="hypothesis", strategy=cases(tier), check=check, examples=(16 * 60 if q else 16 * 600)),
+    return [dict(name="first-use", kind="hypothesis", strategy=first_use_cases(tier), check=check_first_use, examples=(16 * 4 if q else 16 * 40)),
+            dict(name="controlled", kind="hypothesis", strategy=cases(tier), check=check, examples=(16 * 60 if q else 16 * 600)),
             dict(name="stress", kind="hypothesis", strategy=cases(tier, mode="stress"), check=check, examples=(16 * 100 if q else 16 * 1500))]
